@@ -39,7 +39,7 @@ def modImportStep {α : Type} (lk : String → Option α) (ns : List String) (im
     match imports.find? (fun p => p.1 == pre) with
     | none => .ok none
     | some p =>
-      (importTarget ns p.2 (fun sfx => p.2 ++ "." ++ sfx.getD (".".intercalate rest))).map lk
+      (importTarget ns p.2 (fun sfx => sfx.getD p.2 ++ "." ++ ".".intercalate rest)).map lk
   | _ => .ok none
 
 /-- sequencing of the lookup steps: an error aborts, a hit wins, a miss continues with `rest` -/
@@ -119,13 +119,13 @@ theorem resolveFunction_run (name : String) (s : CState) :
               StateT.bind (fail CErrKind.superLimitReached) fun (__r : PUnit) =>
                 match look s.jumpTable
                     (joinNs (List.take (s.ns.length - (superDepth alias_).fst) s.ns)
-                      (alias_ ++ "." ++ (superDepth alias_).snd.getD (".".intercalate rest))) with
+                      ((superDepth alias_).snd.getD alias_ ++ "." ++ ".".intercalate rest)) with
                 | some r => StateT.pure r
                 | x => fail CErrKind.invalidJump
             else
               match look s.jumpTable
                   (joinNs (List.take (s.ns.length - (superDepth alias_).fst) s.ns)
-                    (alias_ ++ "." ++ (superDepth alias_).snd.getD (".".intercalate rest))) with
+                    ((superDepth alias_).snd.getD alias_ ++ "." ++ ".".intercalate rest)) with
               | some r => StateT.pure r
               | x => fail CErrKind.invalidJump
           | x => fail CErrKind.invalidJump
@@ -142,7 +142,7 @@ theorem resolveFunction_run (name : String) (s : CState) :
       | none => rfl
       | some val =>
         rcases val with ⟨key, alias_⟩
-        exact fin alias_ (fun sfx => alias_ ++ "." ++ sfx.getD (".".intercalate (hd :: tl))) _ _ rfl
+        exact fin alias_ (fun sfx => sfx.getD alias_ ++ "." ++ ".".intercalate (hd :: tl)) _ _ rfl
   have s4 := step4 _ rfl
   simp only [fnImportStep]
   cases h3 : List.find? (fun p => p.fst == name) s.imports with
